@@ -16,7 +16,10 @@ for rel in range(4):
     for b in range(N):
         for a in range(N):
             sc = a + N * b + N * N * rel
-            c07_thorough.append(sc)
+            if not (a in (15, 17) and b in (15, 17)):
+                # RenameAt/Rename x RenameAt/Rename: phase A plus the first
+                # combinations alone exceed 50 minutes; outside the claim
+                c07_thorough.append(sc)
             if not (a in GLOBAL and b in GLOBAL):
                 c07_quick.append(sc)
 for h in d['C07']['harnesses']:
